@@ -78,6 +78,8 @@ fn process_polygon<F>(
         bbox.min.y = bbox.min.y.min(line.start.y);
         bbox.max.x = bbox.max.x.max(line.start.x);
         bbox.max.y = bbox.max.y.max(line.start.y);
+        #[cfg(feature = "verif-hooks")]
+        crate::verif::box_accumulated(bbox);
 
         event_queue.push(e1);
         event_queue.push(e2);
